@@ -128,9 +128,10 @@ class C11(Check):
     #    violation kind on the replayed input ---------------------------------
     def shrink(self, case, kind):
         budget = [40]
+        t_end = time.time() + 50      # a replay of a blocking input costs one step deadline
 
         def still(inp):
-            if budget[0] <= 0 or not inp["steps"]:
+            if budget[0] <= 0 or not inp["steps"] or time.time() > t_end:
                 return None
             budget[0] -= 1
             p = os.path.join(WORK, "shrink_%s_%d.jsonl" % (self.ID, os.getpid()))
